@@ -10,7 +10,7 @@ import shutil
 import subprocess
 
 import fs_common as fs
-from common import hx, scratch_dir, unhx
+from common import time_limit, hx, scratch_dir, unhx
 
 REQUIRED = [
     "Swh.C18.identify_no_crash",
@@ -267,7 +267,8 @@ def invoke(fx, c, args, obj, verify_swhid=None):
     a.append(obj)
     _tolerant_runner()
     runner = CliRunner()
-    return runner.invoke(identify, a, input=fx.stdin if c["kind"] == "stdin" else None)
+    with time_limit(60):
+        return runner.invoke(identify, a, input=fx.stdin if c["kind"] == "stdin" else None)
 
 
 _PATCHED = {"done": False}
